@@ -43,16 +43,25 @@ CONSTANTS Parts,        \* partition names "topic/partition"
           SimSalts,     \* 0: every mark/reset argument is enabled (exhaustive runs); n > 0 (simulation):
                         \* arguments of the k-th call are a pseudo-random function of a salt in 0..n
                         \* chosen initially, so that random walks mix calls, commits and Close evenly
+          MaxMoves,     \* how often the group coordinator may MOVE to the other broker while the manager is alive. A move
+                        \* happens together with an answer of a class for which the client is supposed to re-resolve the
+                        \* coordinator (redispatch classes, default class) or with a connection fault; the old broker keeps
+                        \* answering that class to whoever still talks to it. 0: moves are not modelled (harness decides)
+          CodeSet,      \* "none" | "quick" | "all": error CODES (not only classes) the coordinator may answer a commit with,
+                        \* for the whole response or for one partition; the class of a code is CodeKind (derived from
+                        \* handleResponse as it is)
+          MaxCoded,     \* bound on coded answers per behaviour
+          FixedOps,     \* the application calls are fixed: k-th call marks MaxOff on the k-th partition, then commits/Close
           Emit,         \* record hist and print finished behaviours as JSON
-          Bug           \* "none"; "clear_always", "remaining_last_topic" (non-vacuity self-tests of the invariants)
+          Bug           \* "none"; "clear_always", "remaining_last_topic", "redispatch_not_released" (non-vacuity self-tests)
 
 VARIABLES pom, store, pc, todo, req, resp, cached, ops, commits, faults,
           closeSt, attempt, auto, retryMax,
           \* ghosts
-          marks, touched, lowSince, lowAfterSnap, reqLow, backOk, clearOk, finalsOk, refusedF, init0, hist, salt
+          marks, touched, lowSince, lowAfterSnap, reqLow, backOk, clearOk, finalsOk, refusedF, init0, hist, salt, loc, moves, staleKind, coded
 
 vars == <<pom, store, pc, todo, req, resp, cached, ops, commits, faults, closeSt, attempt, auto,
-          retryMax, marks, touched, lowSince, lowAfterSnap, reqLow, backOk, clearOk, finalsOk, refusedF, init0, hist, salt>>
+          retryMax, marks, touched, lowSince, lowAfterSnap, reqLow, backOk, clearOk, finalsOk, refusedF, init0, hist, salt, loc, moves, staleKind, coded>>
 
 Inf == MaxOff + 10
 Pos(o, m) == [off |-> o, meta |-> m]
@@ -70,7 +79,8 @@ Init ==
   /\ InitSame => \A p, q \in Parts : store[p] = store[q]
   /\ salt \in 0..SimSalts
   /\ pom = [p \in Parts |-> [off |-> store[p].off, meta |-> store[p].meta, dirty |-> FALSE, done |-> FALSE]]
-  /\ pc = "idle" /\ todo = {} /\ req = <<>> /\ resp = <<>> /\ cached = TRUE   \* ManagePartition looked it up
+  /\ pc = "idle" /\ todo = {} /\ req = <<>> /\ resp = <<>> /\ cached = 1   \* ManagePartition looked it up: broker 1
+  /\ loc = 1 /\ moves = 0 /\ staleKind = "redispatch" /\ coded = 0
   /\ ops = 0 /\ commits = 0 /\ faults = 0
   /\ closeSt = "open" /\ attempt = 0
   /\ auto \in Autos /\ retryMax \in RetryMaxes
@@ -98,6 +108,7 @@ MarksAllowed == \/ FlightMarks = "any"
 \* MarkOffset (offset_manager.go MarkOffset): monotone
 Mark(p, o, m) ==
   /\ closeSt = "open" /\ ops < MaxOps /\ MarksAllowed /\ Picked(p, o, m, 31, 17, 0)
+  /\ FixedOps => (p = PartSeq[(ops % Len(PartSeq)) + 1] /\ o = MaxOff /\ m = MetaSeq[1])
   /\ ops' = ops + 1
   /\ IF o > pom[p].off
      THEN /\ pom' = [pom EXCEPT ![p].off = o, ![p].meta = m, ![p].dirty = TRUE]
@@ -106,11 +117,11 @@ Mark(p, o, m) ==
      ELSE UNCHANGED <<pom, marks, touched>>
   /\ Step("mark", p, o, m, "none", <<>>)
   /\ UNCHANGED <<store, pc, todo, req, resp, cached, commits, faults, closeSt, attempt, auto, retryMax,
-                 lowSince, lowAfterSnap, reqLow, backOk, clearOk, finalsOk, refusedF, init0, salt>>
+                 lowSince, lowAfterSnap, reqLow, backOk, clearOk, finalsOk, refusedF, init0, salt, loc, moves, staleKind, coded>>
 
 \* ResetOffset: downward (or equal) only
 Reset(p, o, m) ==
-  /\ closeSt = "open" /\ ops < MaxOps /\ MarksAllowed /\ Picked(p, o, m, 13, 29, 5)
+  /\ closeSt = "open" /\ ops < MaxOps /\ MarksAllowed /\ Picked(p, o, m, 13, 29, 5) /\ ~FixedOps
   /\ ops' = ops + 1
   /\ IF o <= pom[p].off
      THEN /\ pom' = [pom EXCEPT ![p].off = o, ![p].meta = m, ![p].dirty = TRUE]
@@ -121,7 +132,7 @@ Reset(p, o, m) ==
      ELSE UNCHANGED <<pom, marks, touched, lowSince, lowAfterSnap>>
   /\ Step("resetoff", p, o, m, "none", <<>>)
   /\ UNCHANGED <<store, pc, todo, req, resp, cached, commits, faults, closeSt, attempt, auto, retryMax,
-                 reqLow, backOk, clearOk, finalsOk, refusedF, init0, salt>>
+                 reqLow, backOk, clearOk, finalsOk, refusedF, init0, salt, loc, moves, staleKind, coded>>
 
 \* flushToBroker starts: Commit() while open, or one of the final attempts of Close()
 BuildStart ==
@@ -132,7 +143,7 @@ BuildStart ==
         /\ NoStep
   /\ pc' = "building" /\ todo' = Parts /\ req' = <<>>
   /\ UNCHANGED <<pom, store, resp, cached, ops, faults, closeSt, auto, retryMax, marks, touched,
-                 lowSince, lowAfterSnap, reqLow, backOk, clearOk, finalsOk, refusedF, init0, salt>>
+                 lowSince, lowAfterSnap, reqLow, backOk, clearOk, finalsOk, refusedF, init0, salt, loc, moves, staleKind, coded>>
 
 \* constructRequest, one partition: snapshot under this partition's lock
 BuildOne(p) ==
@@ -143,15 +154,15 @@ BuildOne(p) ==
   /\ lowAfterSnap' = [lowAfterSnap EXCEPT ![p] = Inf]
   /\ NoStep
   /\ UNCHANGED <<pom, store, pc, resp, cached, ops, commits, faults, closeSt, attempt, auto, retryMax,
-                 marks, touched, lowSince, backOk, clearOk, finalsOk, refusedF, init0, salt>>
+                 marks, touched, lowSince, backOk, clearOk, finalsOk, refusedF, init0, salt, loc, moves, staleKind, coded>>
 
 BuildEnd ==
   /\ pc = "building" /\ todo = {}
   /\ IF DOMAIN req = {} THEN pc' = "after" /\ UNCHANGED cached
-                        ELSE pc' = "sent" /\ cached' = TRUE       \* coordinator(): lookup unless cached
+                        ELSE pc' = "sent" /\ cached' = (IF cached = 0 THEN loc ELSE cached)   \* coordinator(): lookup unless cached
   /\ NoStep
   /\ UNCHANGED <<pom, store, todo, req, resp, ops, commits, faults, closeSt, attempt, auto, retryMax,
-                 marks, touched, lowSince, lowAfterSnap, reqLow, backOk, clearOk, finalsOk, refusedF, init0, salt>>
+                 marks, touched, lowSince, lowAfterSnap, reqLow, backOk, clearOk, finalsOk, refusedF, init0, salt, loc, moves, staleKind, coded>>
 
 \* effect of the coordinator storing the positions of the partitions in A
 StoreApply(A) ==
@@ -159,28 +170,66 @@ StoreApply(A) ==
   /\ backOk' = (backOk /\ \A p \in A : req[p].off < store[p].off => reqLow[p] <= req[p].off)
   /\ lowSince' = [p \in Parts |-> IF p \in A THEN lowAfterSnap[p] ELSE lowSince[p]]
 
+\* ---- error codes and their classes, as handleResponse treats them
+AllCodes == -1..90
+QuickCodes == {-1, 3, 5, 6, 12, 14, 15, 16, 22, 25, 27, 28, 90}
+Codes == IF CodeSet = "all" THEN AllCodes ELSE IF CodeSet = "quick" THEN QuickCodes ELSE {}
+CodeKind(c) == IF c = 0 THEN "ok"
+               ELSE IF c \in {5, 6, 15, 16} THEN "redispatch"   \* NotLeader, LeaderNotAvailable, CoordinatorNotAvailable, NotCoordinator
+               ELSE IF c \in {12, 28} THEN "report"             \* OffsetMetadataTooLarge, InvalidCommitOffsetSize
+               ELSE IF c = 14 THEN "load"                       \* OffsetsLoadInProgress
+               ELSE "unknown"                                   \* default branch: tell the user and redispatch
+\* classes after which the client drops the cached coordinator and resolves it again
+Releasing(k) == (k = "redispatch" /\ Bug # "redispatch_not_released") \/ k = "unknown"
+SupposedToReresolve(k) == k \in {"redispatch", "unknown"}
+Other(b) == 3 - b
+MvLabel(mv) == IF MaxMoves = 0 THEN "-" ELSE IF mv THEN "move" ELSE "stay"
+
+\* the CURRENT coordinator answers the request per partition with classes ks (code: label for the harness, "-2" = any of the class)
+Answer(ks, mv, code) ==
+  LET nf == Cardinality({p \in DOMAIN req : ks[p] # "ok"}) IN
+  /\ faults + nf <= MaxFaults /\ faults' = faults + nf
+  /\ mv => (moves < MaxMoves /\ \E p \in DOMAIN req : SupposedToReresolve(ks[p]))
+  /\ loc' = IF mv THEN Other(loc) ELSE loc
+  /\ moves' = IF mv THEN moves + 1 ELSE moves
+  /\ staleKind' = IF mv THEN (CHOOSE k \in {ks[p] : p \in DOMAIN req} : SupposedToReresolve(k)) ELSE staleKind
+  /\ StoreApply({p \in DOMAIN req : ks[p] = "ok"})
+  /\ resp' = ks /\ pc' = "resp" /\ todo' = DOMAIN req
+  /\ finalsOk' = IF closeSt = "final" THEN finalsOk /\ nf = 0 ELSE finalsOk
+  /\ refusedF' = [p \in Parts |-> IF closeSt = "final" /\ p \in DOMAIN req /\ ks[p] # "ok" THEN refusedF[p] + 1 ELSE refusedF[p]]
+  /\ Step("coord", MvLabel(mv), 0, "", "none", SetSeq({<<p, ks[p], code>> : p \in DOMAIN req}))
+  /\ UNCHANGED cached
+
 Coord ==
   /\ pc = "sent"
-  /\ \/ \E ks \in [DOMAIN req -> Kinds] :
-          LET nf == Cardinality({p \in DOMAIN req : ks[p] # "ok"}) IN
-          /\ faults + nf <= MaxFaults /\ faults' = faults + nf
-          /\ StoreApply({p \in DOMAIN req : ks[p] = "ok"})
-          /\ resp' = ks /\ pc' = "resp" /\ todo' = DOMAIN req
-          /\ finalsOk' = IF closeSt = "final" THEN finalsOk /\ nf = 0 ELSE finalsOk
-          /\ refusedF' = [p \in Parts |-> IF closeSt = "final" /\ p \in DOMAIN req /\ ks[p] # "ok" THEN refusedF[p] + 1 ELSE refusedF[p]]
-          /\ Step("coord", "-", 0, "", "none", SetSeq({<<p, ks[p]>> : p \in DOMAIN req}))
-          /\ UNCHANGED cached
-     \/ \E c \in ConnKinds :     \* connection failure: CommitOffset returns an error
+  /\ IF cached # loc
+     THEN \* the client still talks to the OLD broker: it keeps answering the class it answered when the group moved
+          \* away; nothing is stored, and this is not a refusal by the coordinator
+          /\ resp' = [p \in DOMAIN req |-> staleKind] /\ pc' = "resp" /\ todo' = DOMAIN req
+          /\ finalsOk' = IF closeSt = "final" THEN FALSE ELSE finalsOk
+          /\ Step("coord", "-", 0, "", "stale", <<>>)
+          /\ UNCHANGED <<store, backOk, lowSince, faults, cached, refusedF, loc, moves, staleKind, coded>>
+     ELSE
+     \/ \E ks \in [DOMAIN req -> Kinds], mv \in BOOLEAN : Answer(ks, mv, "-2") /\ UNCHANGED coded
+     \/ \E c \in Codes \ {0}, scope \in {"all"} \cup DOMAIN req, mv \in BOOLEAN :
+          /\ coded < MaxCoded /\ coded' = coded + 1
+          /\ Answer([p \in DOMAIN req |-> IF scope = "all" \/ p = scope THEN CodeKind(c) ELSE "ok"], mv, ToString(c))
+     \/ \E c \in ConnKinds, mv \in BOOLEAN :     \* connection failure: CommitOffset returns an error
           LET applied == c \in {"after_fin", "after_rst"} IN
           \* "pre" faults are steerable only for Commit() and the first final attempt of Close
           /\ (c \in {"pre_fin", "pre_rst"}) => (closeSt = "open" \/ attempt = 1)
           /\ faults < MaxFaults /\ faults' = faults + 1
+          /\ mv => moves < MaxMoves
+          /\ loc' = IF mv THEN Other(loc) ELSE loc
+          /\ moves' = IF mv THEN moves + 1 ELSE moves
+          /\ staleKind' = IF mv THEN "redispatch" ELSE staleKind
           /\ StoreApply(IF applied THEN DOMAIN req ELSE {})
           /\ resp' = <<>> /\ pc' = "after" /\ UNCHANGED todo
-          /\ cached' = FALSE                                     \* releaseCoordinator + broker.Close
+          /\ cached' = 0                                        \* releaseCoordinator + broker.Close
           /\ finalsOk' = IF closeSt = "final" THEN FALSE ELSE finalsOk
           /\ refusedF' = [p \in Parts |-> IF closeSt = "final" /\ p \in DOMAIN req /\ ~applied THEN refusedF[p] + 1 ELSE refusedF[p]]
-          /\ Step("coord", "-", 0, "", c, <<>>)
+          /\ Step("coord", MvLabel(mv), 0, "", c, <<>>)
+          /\ UNCHANGED coded
   /\ UNCHANGED <<pom, req, ops, commits, closeSt, attempt, auto, retryMax, marks, touched,
                  lowAfterSnap, reqLow, clearOk, init0, salt>>
 
@@ -192,17 +241,17 @@ HandleOne(p) ==
      THEN /\ pom' = [pom EXCEPT ![p].dirty = FALSE]
           /\ clearOk' = (clearOk /\ Cur(p) = req[p])    \* dirty is cleared only when pending = committed
      ELSE UNCHANGED <<pom, clearOk>>
-  /\ cached' = IF resp[p] \in {"redispatch", "unknown"} THEN FALSE ELSE cached
+  /\ cached' = IF Releasing(resp[p]) THEN 0 ELSE cached
   /\ NoStep
   /\ UNCHANGED <<store, pc, req, resp, ops, commits, faults, closeSt, attempt, auto, retryMax, marks, touched,
-                 lowSince, lowAfterSnap, reqLow, backOk, finalsOk, refusedF, init0, salt>>
+                 lowSince, lowAfterSnap, reqLow, backOk, finalsOk, refusedF, init0, salt, loc, moves, staleKind, coded>>
 
 HandleEnd ==
   /\ pc = "resp" /\ todo = {}
   /\ pc' = "after"
   /\ NoStep
   /\ UNCHANGED <<pom, store, todo, req, resp, cached, ops, commits, faults, closeSt, attempt, auto, retryMax,
-                 marks, touched, lowSince, lowAfterSnap, reqLow, backOk, clearOk, finalsOk, refusedF, init0, salt>>
+                 marks, touched, lowSince, lowAfterSnap, reqLow, backOk, clearOk, finalsOk, refusedF, init0, salt, loc, moves, staleKind, coded>>
 
 \* after a flush: Commit() -> releasePOMs(false); in the final loop decide whether to go on
 After ==
@@ -215,19 +264,19 @@ After ==
                 THEN "closed" ELSE closeSt
   /\ NoStep
   /\ UNCHANGED <<pom, store, todo, req, resp, cached, ops, commits, faults, attempt, auto, retryMax,
-                 marks, touched, lowSince, lowAfterSnap, reqLow, backOk, clearOk, finalsOk, refusedF, init0, salt>>
+                 marks, touched, lowSince, lowAfterSnap, reqLow, backOk, clearOk, finalsOk, refusedF, init0, salt, loc, moves, staleKind, coded>>
 
 \* Close(): close(closing); wait for mainLoop (no commit running); asyncClosePOMs;
 \* final attempts only with auto-commit
 CloseBegin ==
   /\ closeSt = "open" /\ pc = "idle"
-  /\ SimSalts > 0 => ops = MaxOps
+  /\ (SimSalts > 0 \/ FixedOps) => ops = MaxOps
   /\ closeSt' = IF auto THEN "final" ELSE "closed"
   /\ attempt' = 0 /\ finalsOk' = TRUE /\ refusedF' = [p \in Parts |-> 0]
   /\ pom' = [p \in Parts |-> [pom[p] EXCEPT !.done = TRUE]]
   /\ Step("close", "-", 0, "", "none", <<>>)
   /\ UNCHANGED <<store, pc, todo, req, resp, cached, ops, commits, faults, auto, retryMax, marks, touched,
-                 lowSince, lowAfterSnap, reqLow, backOk, clearOk, init0, salt>>
+                 lowSince, lowAfterSnap, reqLow, backOk, clearOk, init0, salt, loc, moves, staleKind, coded>>
 
 Next == \/ \E p \in Parts, o \in 0..MaxOff, m \in Metas : Mark(p, o, m) \/ Reset(p, o, m)
         \/ BuildStart \/ BuildEnd \/ Coord \/ HandleEnd \/ After \/ CloseBegin
@@ -256,6 +305,8 @@ CleanMeansStored == \A p \in Parts : (touched[p] /\ ~pom[p].dirty) => store[p] =
 ClosedAndAccepted == (closeSt = "closed" /\ auto /\ finalsOk) => \A p \in Parts : touched[p] => store[p] = Cur(p)
 \* ... and a mark is given up at Close only when the attempts were exhausted FOR THAT PARTITION: Retry.Max + 1
 \* final requests carried it and the coordinator refused it (or the connection failed before applying) each time
+\* the client never sends a commit to a broker that is no longer the coordinator (it re-resolved when it was told to)
+NeverTalksToOldCoordinator == pc = "sent" => cached = loc
 ClosedOnlyAfterExhausted == (closeSt = "closed" /\ auto) =>
                                \A p \in Parts : touched[p] => (store[p] = Cur(p) \/ refusedF[p] >= retryMax + 1)
 \* MarkOffset never lowers, ResetOffset never raises (action properties)
